@@ -78,13 +78,13 @@ pub fn c02_value_datetime(inp: &mut Inp) {
 pub fn c02_value_resolution(inp: &mut Inp) {
     value_total(inp, 0x32, 12)
 }
-//@ {"tier":"quick","unwind":14,"desc":"IppValue::parse(0x35 textWithLanguage): every length 0..=10, every body incl. both inner 16-bit lengths (all 2^32 pairs)","sym":"10 body bytes incl. the two inner length fields; len enumerated 0..=10"}
+//@ {"tier":"quick","unwind":14,"desc":"IppValue::parse(0x35 textWithLanguage): every length 0..=6, every body incl. both inner 16-bit lengths","sym":"6 body bytes incl. the two inner length fields; len enumerated 0..=10"}
 pub fn c02_value_textlang(inp: &mut Inp) {
-    value_total_lang(inp, 0x35, 10)
+    value_total_lang(inp, 0x35, 6)
 }
-//@ {"tier":"quick","unwind":14,"desc":"IppValue::parse(0x36 nameWithLanguage): every length 0..=10, every body incl. both inner 16-bit lengths (all 2^32 pairs)","sym":"10 body bytes incl. the two inner length fields; len enumerated 0..=10"}
+//@ {"tier":"quick","unwind":14,"desc":"IppValue::parse(0x36 nameWithLanguage): every length 0..=6, every body incl. both inner 16-bit lengths","sym":"6 body bytes incl. the two inner length fields; len enumerated 0..=10"}
 pub fn c02_value_namelang(inp: &mut Inp) {
-    value_total_lang(inp, 0x36, 10)
+    value_total_lang(inp, 0x36, 6)
 }
 
 //@ {"tier":"thorough","unwind":14,"desc":"IppValue::parse for EVERY other tag byte 0x00..=0xff (strings, out-of-band, collection markers, unregistered): every length 0..=6, every body","sym":"tag byte (all 256 minus the 8 structured ones, which have their own harness), 6 body bytes; len enumerated 0..=6"}
